@@ -163,7 +163,13 @@ def run(c):
             for rel, origin in origins_for(cfg, rng):
                 for shape in ("get", "options", "preflight", rng.choice(["post", "put", "delete", "head", "patch", "trace", "connect"])):
                     method = {"get": "GET", "options": "OPTIONS", "preflight": "OPTIONS"}.get(shape, shape.upper())
-                    hs = [("Host", "localhost")]
+                    # the Host header is the client's business: also the authority of the Origin itself (same site, other scheme)
+                    host = "localhost"
+                    if origin and "://" in origin and len(origin) < 3000 and rng.chance(1, 3):   # the whole request has to fit into one read
+                        host = origin.split("://", 1)[1] or "localhost"
+                    elif rng.chance(1, 10):
+                        host = rng.choice(["files.example", "localhost:7878", "127.0.0.1", "[::1]:8080"])
+                    hs = [("Host", host)]
                     if origin is not None:
                         hs.append(("Origin", origin))
                     if shape == "preflight":
